@@ -9,6 +9,7 @@ import (
 
 	"github.com/cloudwego/hertz/pkg/app"
 	"github.com/cloudwego/hertz/pkg/app/server"
+	"github.com/cloudwego/hertz/pkg/common/config"
 
 	"verifharness/ev"
 	"verifharness/sconn"
@@ -34,19 +35,40 @@ func (b *bodyAtFinish) Finish(ctx context.Context, c *app.RequestContext) {
 // are held in memory of the transport's pool, which is released before the response is flushed.
 func TestC19FinishAfterBuffersReleased(t *testing.T) {
 	rec := ev.New("finish-after-buffers-released")
-	for _, n := range []int{100, 3000, 6000, 20000, 70000} {
+	for _, n := range []int{100, 3000, 6000, 20000, 70000, -6000, -20000} {
+		// negative: a multipart body that is not pre-parsed and whose form the handler asks for (the request then
+		// holds a parsed form beside the raw body)
+		multipart := n < 0
+		if multipart {
+			n = -n
+		}
 		tr := &bodyAtFinish{bodies: map[string]string{}}
 		var handled string
+		opts := []config.Option{server.WithTracer(tr), server.WithMaxRequestBodySize(1 << 20)}
+		if multipart {
+			opts = append(opts, server.WithDisablePreParseMultipartForm(true))
+		}
 		s := sconn.NewServer(func(h *server.Hertz) {
 			h.POST("/a", func(c context.Context, ctx *app.RequestContext) {
 				handled = string(ctx.Request.Body())
+				if multipart {
+					ctx.MultipartForm() //nolint:errcheck
+				}
 				ctx.SetBodyString("ok-a")
 			})
 			h.POST("/b", func(c context.Context, ctx *app.RequestContext) { ctx.SetBodyString("ok-b") })
-		}, server.WithTracer(tr), server.WithMaxRequestBodySize(1<<20))
+		}, opts...)
 		bodyA, bodyB := strings.Repeat("A", n), strings.Repeat("B", n)
+		ct := ""
+		if multipart {
+			wrap := func(x string) string {
+				return "--bnd\r\nContent-Disposition: form-data; name=\"f\"\r\n\r\n" + x + "\r\n--bnd--\r\n"
+			}
+			bodyA, bodyB = wrap(bodyA), wrap(bodyB)
+			ct = "Content-Type: multipart/form-data; boundary=bnd\r\n"
+		}
 		reqFor := func(path, body string) []byte {
-			return []byte(fmt.Sprintf("POST %s HTTP/1.1\r\nHost: h\r\nContent-Length: %d\r\n\r\n%s", path, len(body), body))
+			return []byte(fmt.Sprintf("POST %s HTTP/1.1\r\nHost: h\r\n%sContent-Length: %d\r\n\r\n%s", path, ct, len(body), body))
 		}
 		ca := sconn.New([][]byte{reqFor("/a", bodyA)}, sconn.EOF)
 		ca.OnFirstWrite = func() {
@@ -56,7 +78,7 @@ func TestC19FinishAfterBuffersReleased(t *testing.T) {
 		}
 		res := s.Serve(ca)
 		s.Close()
-		rec.Case(true, ev.HashString(fmt.Sprint(n)), fmt.Sprintf("body-%d", n))
+		rec.Case(true, ev.HashString(fmt.Sprint(n, multipart)), fmt.Sprintf("body-%d", n), map[bool]string{true: "multipart-form-asked-for", false: "plain-body"}[multipart])
 		if res.Panic != nil {
 			t.Fatalf("panic: %v", res.Panic)
 		}
@@ -68,7 +90,7 @@ func TestC19FinishAfterBuffersReleased(t *testing.T) {
 		}
 		if !ok || got != bodyA {
 			nb := strings.Count(got, "B")
-			msg := fmt.Sprintf("body of %d bytes: the handler of /a handled %d x 'A'; the Finish of that request carries a body of %d bytes with %d x 'B' in it (another connection's request was read while the response to /a was being written)", n, n, len(got), nb)
+			msg := fmt.Sprintf("body of %d bytes (multipart=%v): the handler of /a handled %d x 'A'; the Finish of that request carries a body of %d bytes with %d x 'B' in it (another connection's request was read while the response to /a was being written)", n, multipart, n, len(got), nb)
 			ev.Fail(prop, "finish-after-buffers-released", map[string]int{"body": n}, msg)
 			t.Errorf("%s", msg)
 		}
